@@ -216,14 +216,61 @@ def claimonce(ctx, rep, eng, tab):
                         ok_by = "`%s` (%s edge) at %s; claimed edge only fails" % (
                             cb.condsrc, "true" if oc else "false", fn.site(cb.tloc or ""))
             st = DISCHARGED if ok_by else VIOLATION
+            of = [strip_targs(lv.get("cls") or ""), lv.get("n")] if is_claim_field(lv) else \
+                next(([strip_targs(x.get("cls") or ""), x.get("n")] for x in _deref_targets(fn, lv) if is_claim_field(x)), None)
             rep.add(Obligation("CLAIMONCE", fn.base, "store to " + what, site, st,
-                               detail="" if ok_by else problem, by=ok_by or "", control=is_ctl))
+                               detail="" if ok_by else problem, by=ok_by or "", control=is_ctl,
+                               extra={"owner_field": of, "fnkey": fn.key}))
             if is_ctl:
                 ctl[fn.name.split("::")[-1]] = st
             else:
                 n_real += 1
-    for name in ("claim_weak_bad", "claim_missing_bad"):
+    # --- data side: connectivity data handed to a newly registered attributes decoder needs a claim ---
+    data = {(c["data_cls"], c["data"]): (c["owner_cls"], c["owner"]) for c in tab["claim_data"]}
+    registrars = set(tab["claim_registrar"])
+    valid_claims = {}      # fn.key -> set of owner fields with a discharged store
+    for o in rep.obls:
+        if o.rule == "CLAIMONCE" and o.status == DISCHARGED and o.extra.get("owner_field"):
+            valid_claims.setdefault(o.extra["fnkey"], set()).add(tuple(o.extra["owner_field"]))
+    n_data, seen_d = 0, set()
+    for fn in eng.scope:
+        is_ctl = fn.name.startswith("verif_control::")
+        if not any(strip_targs(n.get("fn") or "") in registrars for n, b, rk, ev in fn.calls()):
+            continue
+        for blk, rk, tree, ev in fn.roots():
+            if tree is None:
+                continue
+            for n in walk(tree):
+                if n.get("k") != "un" or n.get("op") != "&":
+                    continue
+                x = _strip(n.get("e"))
+                if not (isinstance(x, dict) and x.get("k") == "field"):
+                    continue
+                key = (strip_targs(x.get("cls") or ""), x.get("n"))
+                if key not in data:
+                    continue
+                site = fn.site(ev.get("loc", ""))
+                if (fn.base, key) in seen_d:
+                    continue
+                seen_d.add((fn.base, key))
+                owner = data[key]
+                ok = owner in valid_claims.get(fn.key, set()) or \
+                    any(owner in v for k2, v in valid_claims.items()
+                        if ctx.F.fns.get(k2) is not None and ctx.F.fns[k2].base == fn.base)
+                rep.add(Obligation("CLAIMONCE", fn.base, "&%s handed to a new attributes decoder" % key[1], site,
+                                   DISCHARGED if ok else VIOLATION,
+                                   detail="ownership recorded in %s behind a claim-once test" % owner[1] if ok else
+                                   "the function registers an attributes decoder on %s but contains no claim-once "
+                                   "store to its ownership field %s::%s: two decoders can share the data" % (
+                                       key[1], owner[0], owner[1]), control=is_ctl))
+                if is_ctl:
+                    ctl[fn.name.split("::")[-1]] = VIOLATION if not ok else ctl.get(fn.name.split("::")[-1], DISCHARGED)
+                else:
+                    n_data += 1
+    rep.floor("connectivity-data objects handed to attributes decoders", n_data, tab["claim_data_floor"])
+    for name in ("claim_weak_bad", "claim_missing_bad", "claim_data_unowned_bad"):
         rep.control("CLAIMONCE", name, ctl.get(name) == VIOLATION, "must be reported")
+    rep.control("CLAIMONCE", "claim_data_ok (negative)", ctl.get("claim_data_ok") == DISCHARGED, "must be discharged")
     for name in ("claim_ok", "claim_ptr_ok"):
         rep.control("CLAIMONCE", name + " (negative)", ctl.get(name) == DISCHARGED, "must be discharged")
-    rep.floor("stores to write-once ownership fields in Reach(decode)", n_real, tab["claim_floor"])
+    rep.floor("stores to write-once ownership fields in Reach(decode)", n_real, 1)
